@@ -81,13 +81,18 @@ def min_delta(delta):
         The minimum height of a leaf above its merger level
 
     """
+    def _py(x):
+        # Use Python scalars, so that the difference cannot wrap around (or
+        # lose precision) in the dtype of the input array
+        return x.item() if hasattr(x, 'item') else x
+
     def result(structure, index=None, value=None):
         if value is None:
             if structure.parent is not None:
-                return (structure.height - structure.parent.height) >= delta
+                return (_py(structure.height) - _py(structure.parent.height)) >= delta
 
-            return (structure.vmax - structure.vmin) >= delta
-        return (structure.vmax - value) >= delta
+            return (_py(structure.vmax) - _py(structure.vmin)) >= delta
+        return (_py(structure.vmax) - _py(value)) >= delta
     return result
 
 
